@@ -38,6 +38,9 @@ bytes_json (HBuf *b, const char *key, const orc_uint8 *p, int n)
 
 typedef struct { OrcProgram *p; OrcStaticOpcode *op; int mult; int sa, sb, sd, sd2; int scalar_b; int is_acc; int var_d, var_d2, var_a, var_b; } Prog;
 
+static int force_kind;          /* 0: arrays, 1: second operand is a parameter, 2: a constant */
+static orc_uint64 const_value;
+
 static int
 make (Prog *g, const char *opname, int mult, OrcTarget *t, int *cls)
 {
@@ -59,8 +62,16 @@ make (Prog *g, const char *opname, int mult, OrcTarget *t, int *cls)
   if (g->sd2) { g->var_d2 = orc_program_add_destination (g->p, g->sd2 * mult, "d2"); args[na++] = g->var_d2; }
   g->var_a = orc_program_add_source (g->p, g->sa * mult, "s1"); args[na++] = g->var_a;
   if (g->sb) {
-    if (g->scalar_b) g->var_b = orc_program_add_parameter (g->p, g->sb, "p1");
-    else g->var_b = orc_program_add_source (g->p, g->sb * mult, "s2");
+    if (force_kind == 2) {
+      /* a constant operand has the size of the opcode's own operand, whatever the prefix */
+      if (g->sb > 4) g->var_b = orc_program_add_constant_int64 (g->p, g->sb, (orc_int64) const_value, "c1");
+      else g->var_b = orc_program_add_constant (g->p, g->sb, (int) const_value, "c1");
+      g->scalar_b = 2;
+    } else if (g->scalar_b || force_kind == 1) {
+      if (g->sb > 4) g->var_b = orc_program_add_parameter_int64 (g->p, g->sb, "p1");
+      else g->var_b = orc_program_add_parameter (g->p, g->sb, "p1");
+      g->scalar_b = 1;
+    } else g->var_b = orc_program_add_source (g->p, g->sb * mult, "s2");
     args[na++] = g->var_b;
   }
   orc_program_append_2 (g->p, opname, flags, args[0], args[1], args[2], args[3]);
@@ -84,13 +95,13 @@ run_block (Prog *g, const char *path, int native, int n, int off, orc_uint64 bpa
   if (g->sd2) { memset (D2 - 16, 0xa5, n * ed2 + 32); ex.arrays[g->var_d2] = D2; }
   ex.arrays[g->var_a] = A;
   if (g->sb) {
-    if (g->scalar_b) { ex.params[g->var_b] = (int) bparam; ex.params[g->var_b + (ORC_VAR_T1 - ORC_VAR_P1)] = (int) (bparam >> 32); }
-    else ex.arrays[g->var_b] = B;
+    if (g->scalar_b == 1) { ex.params[g->var_b] = (int) bparam; ex.params[g->var_b + (ORC_VAR_T1 - ORC_VAR_P1)] = (int) (bparam >> 32); }
+    else if (g->scalar_b == 0) ex.arrays[g->var_b] = B;
   }
   if (native) orc_executor_run (&ex); else orc_executor_emulate (&ex);
   hb_init (&ev);
   hb_printf (&ev, "\"e\":\"Run\",\"op\":\"%s\",\"x\":%d,\"path\":\"%s\",\"n\":%d,\"off\":%d,\"sa\":%d,\"sb\":%d,\"sd\":%d,\"sd2\":%d,\"acc\":%d,\"sc\":%d",
-      g->op->name, g->mult, path, n, off, g->sa, g->sb, g->sd, g->sd2, g->is_acc, g->scalar_b);
+      g->op->name, g->mult, path, n, off, g->sa, g->sb, g->sd, g->sd2, g->is_acc, g->scalar_b ? 1 : 0);
   bytes_json (&ev, "a", A, n * ea);
   if (g->sb) {
     if (g->scalar_b) { orc_uint8 t[8]; put (t, g->sb, bparam); bytes_json (&ev, "b", t, g->sb); }
@@ -130,8 +141,31 @@ do_line (const char *path, char *line)
   HRng r;
   static const int ns[] = { 1, 15, 16, 17, 33, 64, 7, 3, 31, 32, 100 };
   if (sscanf (line, "%31s %d %15s %lu", opname, &mult, mode, &seed) < 3) return;
-  if (!make (&g, opname, mult, t, &cls)) return;
   r.s = seed * 0x9e3779b97f4a7c15ULL + fnv1a (opname, strlen (opname));
+  force_kind = !strcmp (mode, "par") ? 1 : (!strcmp (mode, "con") ? 2 : 0);
+  if (force_kind == 2) {
+    /* the constant is part of the program: one program per constant value */
+    int c;
+    for (c = 0; c < 6; c++) {
+      OrcStaticOpcode *o = orc_opcode_find_by_name (opname);
+      int shiftop = o && (o->flags & ORC_STATIC_OPCODE_SCALAR);
+      const_value = pick (&r, o && o->src_size[1] ? o->src_size[1] : 1, 0);
+      if (shiftop && o->src_size[1]) const_value %= 8 * o->src_size[0];
+      if (!strcmp (opname, "divluw") && (const_value & 0xff) == 0) const_value |= 1;
+      if (!make (&g, opname, mult, t, &cls)) return;
+      if (!g.sb || (native && !ORC_COMPILE_RESULT_IS_SUCCESSFUL (cls)) || (!native && (ORC_COMPILE_RESULT_IS_FATAL (cls) || !g.p->orccode))) {
+        orc_program_free (g.p); return;
+      }
+      for (i = 0; i < 6; i++) {
+        int n = ns[(i + c) % 11], off = i % 3, l;
+        for (j = 0; j < n + off; j++) for (l = 0; l < mult; l++) put (bufA + 64 + j * g.sa * mult + l * g.sa, g.sa, pick (&r, g.sa, i & 1));
+        run_block (&g, path, native, n, off, const_value);
+      }
+      orc_program_free (g.p);
+    }
+    return;
+  }
+  if (!make (&g, opname, mult, t, &cls)) return;
   if (native && !ORC_COMPILE_RESULT_IS_SUCCESSFUL (cls)) {
     HEMIT ("\"e\":\"NoCode\",\"op\":\"%s\",\"x\":%d,\"path\":\"%s\",\"res\":%d", opname, mult, path, cls);
     orc_program_free (g.p);
@@ -174,12 +208,12 @@ do_line (const char *path, char *line)
         }
     } else {
       /* boundary-biased / random operands; n and misalignment vary */
-      int rounds = !strcmp (mode, "rnd") ? 24 : 40;
+      int rounds = !strcmp (mode, "rnd") ? 24 : (force_kind ? 30 : 40);
       int md = !strcmp (mode, "rnd");
       for (i = 0; i < rounds; i++) {
         int n = ns[i % 11], off = (i / 3) % 5;
         orc_uint64 bp = pick (&r, g.sb ? g.sb : 1, 0);
-        if (g.scalar_b) bp = (g.op->name[0] == 's' && g.op->name[1] == 'h') ? bp % (8 * g.sa) : bp;
+        if (g.op->flags & ORC_STATIC_OPCODE_SCALAR) bp = bp % (8 * g.sa);
         if (!strcmp (opname, "divluw")) bp |= 1;
         for (j = 0; j < n + off; j++) {
           int l;
